@@ -37,6 +37,20 @@ def poset(tier, variant):
         e = Ev(*a, **k)
         E.append(e)
         return e
+    if variant == 'mixed':
+        # one feature with a top-level scenario AND a rule; attempts have an event between Started and Finished
+        f0s = add('F0.Started', 'feature_started', feature=0)
+        prev = f0s
+        for w in ('Started', 'Step', 'Finished'):
+            prev = add('a.%s' % w, 'scenario', feature=0, scenario='a', attempt=None, what=w, deps=[prev])
+        a_last = prev
+        rs = add('F0.r.Started', 'rule_started', feature=0, rule=0, deps=[f0s])
+        prev = rs
+        for w in ('Started', 'Step', 'Finished'):
+            prev = add('b.%s' % w, 'scenario', feature=0, rule=0, scenario='b', attempt=None, what=w, deps=[prev])
+        rf = add('F0.r.Finished', 'rule_finished', feature=0, rule=0, deps=[prev])
+        add('F0.Finished', 'feature_finished', feature=0, deps=[a_last, rf])
+        return E
     if variant == 'immediate':
         # small poset plus the two free items that must be forwarded at once wherever they arrive
         f0s = add('F0.Started', 'feature_started', feature=0)
@@ -80,7 +94,7 @@ def body(chk):
     """Exploration is partitioned by the first PREFIX_DEPTH linearisation choices and run in parallel workers (fork);
     each worker explores every path below its prefix; the parent merges verdicts and statistics."""
     import multiprocessing as mp
-    variants = ['basic', 'rule', 'immediate'] + (['two-scenarios'] if chk.tier == 'thorough' else [])
+    variants = ['basic', 'rule', 'immediate', 'mixed'] + (['two-scenarios'] if chk.tier == 'thorough' else [])
     bound = ('every linearisation (chosen symbolically) of the event posets %s: 2 features, one scenario retried once '
              '(attempt counter symbolic k < 2^32: attempts k and k+1), a second scenario top-level / inside a rule%s; '
              'run-Started first, run-Finished last; inner writer futures ready at once'
@@ -193,7 +207,11 @@ def _explore(chk, variant, prefix):
             else:
                 ret = Adt('Option<event::Retries>', {(1, 0): Adt('event::Retries', {(None, ix.Ret['current']): k + bv(e.attempt),
                                                                                  (None, ix.Ret['left']): bv(1 - e.attempt)})}, 1)
-            sv = Adt('event::Scenario<W>', {}, ix.Sc[e.what])
+            if e.what == 'Step':
+                sv = Adt('event::Scenario<W>', {(ix.Sc['Step'], 0): events.source('gherkin::Step', bv(0x900), 'step'),
+                                                (ix.Sc['Step'], 1): Adt('event::Step<W>', {}, ix.Step['Started'])}, ix.Sc['Step'])
+            else:
+                sv = Adt('event::Scenario<W>', {}, ix.Sc[e.what])
             return Adt('event::RetryableScenario<W>', {(None, ix.RS['event']): sv, (None, ix.RS['retries']): ret})
         f = source('f', e.feature, 'gherkin::Feature') if e.feature is not None else None
         if e.kind == 'parse_error':
@@ -600,8 +618,10 @@ def parse_native(s):
         rest = m2.group(2)
         if rest in ('started', 'finished'):
             return ('rule', f, rule, rest.capitalize())
-    m3 = re.match(r'scenario\[(.*?)\]:(\w+) r=(\S+)$', rest)
+    m3 = re.match(r'scenario\[(.*?)\]:(.*) r=(\S+)$', rest)
     sc, what, r = m3.group(1), m3.group(2), m3.group(3)
+    if what.startswith('step['):
+        what = 'step'
     att = None if r == '-' else int(r.split('/')[0])
     return ('scenario', f, rule, sc, att, what.capitalize())
 
